@@ -409,3 +409,30 @@ def C(dotted):
 
 
 PI = C("scipy.constants.pi")
+
+
+# ----------------------------------------------------------------------------- linear reductions
+def pull_scalars(v, is_scalar_atom, fns=("mean", "sum")):
+    """mean(c*s*x) -> c*s*mean(x) for numeric coefficients c and scalar atoms s (linearity of
+    mean/sum); applied recursively so that r*mean(|x|^2) and mean(r*|x|^2) normalise alike."""
+    from .forms import Form, mk_fn, fpow, subst_value
+
+    def fn(a):
+        if a[0] == "fn" and a[1] in fns and a[2] and isinstance(a[2][0], Form):
+            inner = pull_scalars(a[2][0], is_scalar_atom, fns)
+            total = Form()
+            for m, c in inner.terms.items():
+                sc = Form({(): c})
+                rest = Form.num(1)
+                for at, e in m:
+                    if is_scalar_atom(at):
+                        sc = sc * fpow(Form.atom(at), e)
+                    else:
+                        rest = rest * fpow(Form.atom(at), e)
+                args = [rest] + [subst_value(x, fn) for x in a[2][1:]]
+                total = total + sc * Form.atom(("fn", a[1], tuple(args), a[3]))
+            return total
+        return None
+    if isinstance(v, Form):
+        return v.subst(fn)
+    return v
